@@ -1,6 +1,6 @@
 //! Statistical SEARCH AIDS for the "expectation over hash randomness" properties (C01, C03, C08): the exact target
 //! value (J_P, w_d/Σw, J) is computed from the input; the observed mean over fresh random item identifiers must lie
-//! within 6 σ + 0.01 (σ conservative: one sample per trial).  Not proofs — they look for failing inputs on the
+//! within 6 standard errors + 0.002 (standard error from the sample variance of the per-trial fractions).  Not proofs — they look for failing inputs on the
 //! implementation and support the ideal-hashing assumption of the theorems; every label derives from the run's seed.
 use crate::c02::INIT;
 use crate::dens::D;
@@ -19,10 +19,26 @@ fn fresh(rng: &mut Sm64, n: usize) -> Vec<u64> {
     v
 }
 
-fn judge(ctx: &mut Ctx, key: String, what: &str, p: f64, obs: f64, trials: u64, detail: serde_json::Value) {
-    let sigma = (p * (1.0 - p) / trials as f64).sqrt();
-    if (obs - p).abs() > 6.0 * sigma + 0.01 {
-        ctx.oracle_failure(serde_json::json!({"kind":"impl_violates_property","key":key,"what":what,"exact":p,"observed":obs,"trials":trials,"sigma":sigma,"case":detail}));
+/// running mean / variance of the per-trial fractions
+#[derive(Default, Clone, Copy)]
+pub struct Acc { n: f64, s1: f64, s2: f64, m: f64 }
+impl Acc {
+    pub fn new(m: usize) -> Acc { Acc { n: 0.0, s1: 0.0, s2: 0.0, m: m as f64 } }
+    pub fn add(&mut self, f: f64) { self.n += 1.0; self.s1 += f; self.s2 += f * f; }
+    pub fn mean(&self) -> f64 { self.s1 / self.n }
+    /// standard error of the mean, from the sample variance of the per-trial fractions (so that the dependence
+    /// between the positions of one trial is accounted for); never below the binomial floor of one sample per 64 trials
+    pub fn sem(&self) -> f64 { ((self.s2 / self.n - self.mean() * self.mean()).max(0.0) / self.n).sqrt() }
+}
+
+/// flag when |observed mean - exact| > 6 standard errors + 0.002
+fn judge(ctx: &mut Ctx, key: String, what: &str, p: f64, acc: &Acc, detail: serde_json::Value) {
+    // the sample variance under-estimates when the event is rare (no hit observed => 0): never below the binomial
+    // value for independent positions, which is the smallest variance the exact probability allows
+    let floor = (p * (1.0 - p) / (acc.n * acc.m.max(1.0))).sqrt();
+    let (obs, sem) = (acc.mean(), acc.sem().max(floor));
+    if (obs - p).abs() > 6.0 * sem + 0.002 {
+        ctx.oracle_failure(serde_json::json!({"kind":"impl_violates_property","key":key,"what":what,"exact":p,"observed":obs,"trials":acc.n,"standard_error":sem,"case":detail}));
     }
 }
 
@@ -90,18 +106,17 @@ pub fn pmh_statistics(ctx: &mut Ctx) {
                 ctx.begin_case(&format!("pmh law case#{} {} m={} J_P={:.4}", ci, names[variant], m, p));
                 ctx.mark_nontrivial();
                 ctx.count(&format!("pmh law variant={}", names[variant]));
-                let (mut eq, mut first) = (0u64, 0u64);
+                let (mut eq, mut first) = (Acc::new(m), Acc::new(m));
                 let d0 = wa.iter().position(|w| *w > 0.0).unwrap();
                 for _ in 0..trials {
                     let ids = fresh(&mut rng, wa.len());
                     let (sa, sb) = (pmh_sig(variant, m, &ids, wa), pmh_sig(variant, m, &ids, wb));
-                    eq += (0..m).filter(|k| sa[*k] == sb[*k]).count() as u64;
-                    first += (0..m).filter(|k| sa[*k] == ids[d0]).count() as u64;
+                    eq.add((0..m).filter(|k| sa[*k] == sb[*k]).count() as f64 / m as f64);
+                    first.add((0..m).filter(|k| sa[*k] == ids[d0]).count() as f64 / m as f64);
                 }
-                let n = trials as f64 * m as f64;
                 let detail = serde_json::json!({"variant":names[variant],"m":m,"wA":wa,"wB":wb});
-                judge(ctx, format!("pmh-law:case{}:v{}:m={}", ci, variant, m), "expected fraction of equal signature positions differs from J_P (fresh random identifiers)", p, eq as f64 / n, trials, detail.clone());
-                judge(ctx, format!("pmh-single:case{}:v{}:m={}", ci, variant, m), "a position holds item d with a frequency different from w_d / sum w", wa[d0] / tot_a, first as f64 / n, trials, detail);
+                judge(ctx, format!("pmh-law:case{}:v{}:m={}", ci, variant, m), "expected fraction of equal signature positions differs from J_P (fresh random identifiers)", p, &eq, detail.clone());
+                judge(ctx, format!("pmh-single:case{}:v{}:m={}", ci, variant, m), "a position holds item d with a frequency different from w_d / sum w", wa[d0] / tot_a, &first, detail);
             }
         }
     }
@@ -123,12 +138,12 @@ pub fn smh_statistics(ctx: &mut Ctx) {
                 ctx.begin_case(&format!("smh law {} |A-B|={} |B-A|={} |AnB|={} m={}", name, da, db, c, m));
                 ctx.mark_nontrivial();
                 ctx.count(&format!("smh law sketcher={}", name));
-                let mut eq = 0u64;
+                let mut eq = Acc::new(m as usize);
                 for _ in 0..trials {
                     let ids = fresh(&mut rng, da + db + c);
                     let a: Vec<u64> = ids[..da].iter().chain(ids[da + db..].iter()).cloned().collect();
                     let b: Vec<u64> = ids[da..].to_vec();
-                    eq += match kind {
+                    let cnt: u64 = match kind {
                         0 => {
                             let mut sa = SuperMinHash::<f64, u64, FnvHasher>::new(m, bh());
                             let mut sb = SuperMinHash::<f64, u64, FnvHasher>::new(m, bh());
@@ -148,9 +163,10 @@ pub fn smh_statistics(ctx: &mut Ctx) {
                             (0..m).filter(|k| sa.get_hsketch()[*k] == sb.get_hsketch()[*k]).count() as u64
                         }
                     };
+                    eq.add(cnt as f64 / m as f64);
                 }
                 judge(ctx, format!("smh-law:{}:{}-{}-{}:m={}", kind, da, db, c, m), "expected fraction of equal sketch positions differs from the Jaccard index (fresh random items)",
-                    p, eq as f64 / (trials as f64 * m as f64), trials, serde_json::json!({"sketcher":name,"m":m,"a_only":da,"b_only":db,"common":c}));
+                    p, &eq, serde_json::json!({"sketcher":name,"m":m,"a_only":da,"b_only":db,"common":c}));
             }
         }
     }
@@ -167,7 +183,7 @@ pub fn dens_statistics(ctx: &mut Ctx) {
                 if m == 2000 && (kind % 2 == 1) && ctx.quick() { continue; } // reverse algorithm, very sparse: slow; thorough only
                 let mut rng = ctx.rng.fork();
                 let tr = if m >= 200 { trials / 8 + 50 } else { trials };
-                let mut eq = 0u64;
+                let mut eq = Acc::new(m as usize);
                 let mut label = String::new();
                 for _ in 0..tr {
                     let ids = fresh(&mut rng, da + db + c);
@@ -177,13 +193,13 @@ pub fn dens_statistics(ctx: &mut Ctx) {
                     if label.is_empty() { label = format!("{}{}", sa.alg(), sa.sfx()); }
                     sa.sketch_slice(&a); sb.sketch_slice(&b);
                     let (va, vb) = (sa.u64view(), sb.u64view());
-                    eq += (0..m).filter(|k| va[*k] == vb[*k]).count() as u64;
+                    eq.add((0..m).filter(|k| va[*k] == vb[*k]).count() as f64 / m as f64);
                 }
                 ctx.begin_case(&format!("dens law {} |A-B|={} |B-A|={} |AnB|={} m={}", label, da, db, c, m));
                 ctx.mark_nontrivial();
                 ctx.count(&format!("dens law fill={}", if (da + db + c) * 10 <= m { "sparse" } else if da + db + c >= m { "dense" } else { "partial" }));
                 judge(ctx, format!("dens-law:{}:{}-{}-{}:m={}", label, da, db, c, m), "expected fraction of equal densified positions differs from the Jaccard index (fresh random items)",
-                    p, eq as f64 / (tr as f64 * m as f64), tr, serde_json::json!({"sketcher":label,"m":m,"a_only":da,"b_only":db,"common":c}));
+                    p, &eq, serde_json::json!({"sketcher":label,"m":m,"a_only":da,"b_only":db,"common":c}));
             }
         }
     }
@@ -221,7 +237,7 @@ pub fn ssk_collision_statistics(ctx: &mut Ctx) {
                 ctx.mark_nontrivial();
                 ctx.count(&format!("ssk collision law b={}", b));
                 let tr = if m >= 256 { trials / 4 + 20 } else { trials };
-                let mut eq = 0u64;
+                let mut eq = Acc::new(m as usize);
                 for _ in 0..tr {
                     let ids = fresh(&mut rng, (n1 + n2 + n3) as usize);
                     let (i1, i2) = (n1 as usize, (n1 + n2) as usize);
@@ -229,11 +245,10 @@ pub fn ssk_collision_statistics(ctx: &mut Ctx) {
                     let bv: Vec<u64> = ids[i1..].to_vec();
                     let (mut sa, mut sb) = (new16((b, m, a, q)), new16((b, m, a, q)));
                     sa.sketch_slice(&av).unwrap(); sb.sketch_slice(&bv).unwrap();
-                    eq += sa.get_signature().iter().zip(sb.get_signature().iter()).filter(|(x, y)| x == y).count() as u64;
+                    eq.add(sa.get_signature().iter().zip(sb.get_signature().iter()).filter(|(x, y)| x == y).count() as f64 / m as f64);
                 }
-                let frac = eq as f64 / (tr as f64 * m as f64);
                 let detail = serde_json::json!({"b":b,"a":a,"q":q,"m":m,"a_only":n1,"b_only":n2,"common":n3});
-                judge(ctx, format!("ssk-coll:b={}:{}-{}-{}:m={}", b, n1, n2, n3, m), "expected fraction of equal SetSketch registers differs from the exact collision probability (fresh random items)", p, frac, tr, detail.clone());
+                judge(ctx, format!("ssk-coll:b={}:{}-{}-{}:m={}", b, n1, n2, n3, m), "expected fraction of equal SetSketch registers differs from the exact collision probability (fresh random items)", p, &eq, detail.clone());
                 // bounds at the exact collision probability contain J (1e-4)
                 let pp = p.min(1.0);
                 let (lo, hi) = match catch(move || probminhash::setsketcher::SetSketchParams::new(b, m, a, q).get_jaccard_bounds(pp)) {
